@@ -10,25 +10,25 @@ Proof.
 Qed.
 
 Lemma scan_skip_ws s rest : all_ws s = true ->
-  scan ENone [] false (s ++ rest) = scan ENone [] false rest.
+  scan ENone [] false false (s ++ rest) = scan ENone [] false false rest.
 Proof.
   induction s as [|c s IH]; intros H; [reflexivity|].
   cbn [all_ws forallb] in H. apply andb_true_iff in H as [Hc Hs].
   cbn [app scan]. destruct (ws_plain c Hc) as [-> ->]. rewrite Hc. now apply IH.
 Qed.
 
-Lemma scan_quoted q s acc rest : existsb (Nat.eqb q) s = false ->
-  scan (EQuote q) acc true (s ++ q :: rest) = scan ENone (acc ++ s) true rest.
+Lemma scan_quoted q s acc eb rest : existsb (Nat.eqb q) s = false ->
+  scan (EQuote q) acc true eb (s ++ q :: rest) = scan ENone (acc ++ s) true false rest.
 Proof.
-  revert acc. induction s as [|c s IH]; intros acc H.
+  revert acc eb. induction s as [|c s IH]; intros acc eb H.
   - cbn [app scan]. rewrite Nat.eqb_refl, app_nil_r. reflexivity.
   - cbn [existsb] in H. apply orb_false_iff in H as [Hc Hs].
     cbn [app scan]. rewrite Nat.eqb_sym, Hc. rewrite IH by assumption.
     now rewrite <- app_assoc.
 Qed.
 
-Lemma scan_piece p acc ia rest : piece_ok p = true ->
-  scan ENone acc ia (render_piece p ++ rest) = scan ENone (acc ++ value_piece p) true rest.
+Lemma scan_piece p acc ia eb rest : piece_ok p = true ->
+  scan ENone acc ia eb (render_piece p ++ rest) = scan ENone (acc ++ value_piece p) true (eb_piece p) rest.
 Proof.
   destruct p as [c|q s|c]; cbn [piece_ok render_piece value_piece]; intros H.
   - apply andb_true_iff in H as [H H3]. apply andb_true_iff in H as [H1 H2].
@@ -39,11 +39,11 @@ Proof.
     rewrite Nat.eqb_refl. reflexivity.
 Qed.
 
-Lemma scan_word w : forall acc ia rest, forallb piece_ok w = true ->
-  scan ENone acc ia (render_word w ++ rest) =
-  scan ENone (acc ++ value_word w) (ia || nonempty w) rest.
+Lemma scan_word w : forall acc ia eb rest, forallb piece_ok w = true ->
+  scan ENone acc ia eb (render_word w ++ rest) =
+  scan ENone (acc ++ value_word w) (ia || nonempty w) (eb_word eb w) rest.
 Proof.
-  induction w as [|p w IH]; intros acc ia rest H.
+  induction w as [|p w IH]; intros acc ia eb rest H.
   - cbn. now rewrite app_nil_r, orb_false_r.
   - cbn [forallb] in H. apply andb_true_iff in H as [Hp Hw].
     unfold render_word, value_word. cbn [map concat]. rewrite <- app_assoc.
@@ -56,7 +56,7 @@ Proof. destruct a; [discriminate|reflexivity]. Qed.
 
 (* one word followed by a non-empty separator run *)
 Lemma flat_next_word w s rest : good_word w = true -> all_ws s = true -> nonempty s = true ->
-  flat_next (render_word w ++ s ++ rest) = Ok (Some (value_word w, hard_of s, tl s ++ rest)).
+  flat_next (render_word w ++ s ++ rest) = Ok (Some (value_word w, hard_item (w, s), tl s ++ rest)).
 Proof.
   intros Hw Hs Hne. apply andb_true_iff in Hw as [Hp Hv].
   unfold flat_next. rewrite scan_word by assumption. cbn [app].
@@ -123,9 +123,9 @@ Proof. intros Hl Hok Hf. rewrite flat_all_lead by assumption. now apply flat_all
 
 (* an unterminated quote is an error, wherever it starts *)
 Lemma scan_open_quote q s acc : existsb (Nat.eqb q) s = false ->
-  exists acc', scan (EQuote q) acc true s = NeedMore (EQuote q) acc' true.
+  forall eb, exists acc' eb', scan (EQuote q) acc true eb s = NeedMore (EQuote q) acc' true eb'.
 Proof.
-  revert acc. induction s as [|c s IH]; intros acc H; [eexists; reflexivity|].
+  revert acc. induction s as [|c s IH]; intros acc H eb; [eexists _, _; reflexivity|].
   cbn [existsb] in H. apply orb_false_iff in H as [Hc Hs]. cbn [scan].
   rewrite Nat.eqb_sym, Hc. now apply IH.
 Qed.
@@ -134,7 +134,7 @@ Lemma flat_next_open_quote w q s : forallb piece_ok w = true -> is_quote q = tru
   existsb (Nat.eqb q) s = false -> flat_next (render_word w ++ q :: s) = Err.
 Proof.
   intros Hw Hq Hs. unfold flat_next. rewrite scan_word by assumption.
-  cbn [scan]. rewrite Hq. destruct (scan_open_quote q s (([] ++ value_word w)) Hs) as [acc' ->].
+  cbn [scan]. rewrite Hq. destruct (scan_open_quote q s (([] ++ value_word w)) Hs false) as (acc' & eb' & ->).
   reflexivity.
 Qed.
 
